@@ -1,1 +1,6 @@
-fn main() { tpv::main_entry(); }
+#[global_allocator]
+static GLOBAL: tpv::alloc::CountingAlloc = tpv::alloc::CountingAlloc;
+
+fn main() {
+    tpv::main_entry();
+}
